@@ -133,7 +133,8 @@ impl InstructionProperties for ParserNode {
 
     fn is_unconditional_jump(&self) -> bool {
         match self {
-            ParserNode::JumpLink(x) if x.rd == Register::X0 => true,
+            // A jal that is not a call (it does not link into ra) never falls through
+            ParserNode::JumpLink(x) if x.rd != Register::X1 => true,
             ParserNode::JumpLinkR(x) if x.rd == Register::X0 => true,
             ParserNode::Branch(x) => {
                 x.rs1 == Register::X0
